@@ -188,6 +188,10 @@ def noise_population(ctx, tier):
     L = 3 if tier == "quick" else 4
     texts = ["".join(t) for n in range(1, L + 1) for t in itertools.product(ALPHA20, repeat=n)]
     more = ["int x = " + t + ";" for t in texts if len(t) <= (2 if tier == "quick" else 3)]
+    # the same noise at the end of directive lines (the free-form text of #pragma, the tail of a line directive), with
+    # and without the rest of a program after it
+    short = [t for t in texts if len(t) <= (2 if tier == "quick" else 3)]
+    more += [pre + t + post for t in short for pre in ("#pragma p ", "#pragma ", "# 3 \"f.h\" ", "#line 3 ", "_Pragma(\"p") for post in ("", "\nint y;")]
     return texts + more
 
 
